@@ -22,4 +22,16 @@ EraseWithTail ==
      /\ act'.a[2] < Len(vec[act'.v].elems)
 
 NoEraseWithTail == ~EraseWithTail
+
+(* KF-MOVEASSIGN-UNITS: move assignment between unequal, non-propagating   *)
+(* allocators requests its new block in bytes where the owning pointer     *)
+(* counts storage units: the block is (storage alignment) times too large, *)
+(* and repeated assignments multiply the factor.                           *)
+UnequalMoveAssign ==
+  /\ act'.n = "MoveAssign"
+  /\ act'.a[1] # act'.v
+  /\ ~POCMA
+  /\ ~EqAlloc(vec[act'.v].al, vec[act'.a[1]].al)
+
+NoUnequalMoveAssign == ~UnequalMoveAssign
 =============================================================================
